@@ -88,8 +88,11 @@ def snapshot(root):
 
 def impl(case):
     cls = CLS[case.get("cls", "anynode")]
-    root = build(case["tree"], cls)
-    before = snapshot(root)
+    top = build(case["tree"], cls)
+    root = top
+    for i in case.get("start", []):
+        root = root.children[i]          # export a subtree in place: maxlevel counts from the start node
+    before = snapshot(top)
     kw = {}
     if case.get("maxlevel") is not None or not case.get("defaults"):
         kw["maxlevel"] = case.get("maxlevel")
@@ -103,7 +106,7 @@ def impl(case):
     exp = DictExporter(**kw)
     d = exp.export(root)
     out = {"export": ddata_canon(d)}
-    if snapshot(root) != before:
+    if snapshot(top) != before:
         out["export_mutated_tree"] = True
     d_copy = copy.deepcopy(d)
     imp = DictImporter(nodecls=cls)
